@@ -7,6 +7,7 @@ from cv.rules import events_of, order_after_success
 from props.C03 import const_strings
 
 TITLE = "Everything written conforms to the documented archive format"
+TECHNIQUE = 'static analysis: evaluated format constants, decoded format_args! templates (path shapes), identity provenance of counts, names and addresses'
 EXPLANATION = (
     "An independent decoder over all histories is run-time. Decided is writer-side provenance and the constant "
     "table: (1) the format constants have the documented values and doc/format.md names them; readers and writers "
@@ -179,12 +180,9 @@ def run(ck, w):
     else:
         good = True
         for b, bb, s in writers["index::write::IndexWriter::finish_hunk"]:
-            orig = flow.origins(b, s["rv"]["ops"][0]) if s["rv"]["rk"] == "use" else set()
-            adds = [x for x in orig if x[0] == "arith"]
-            ones = [x for x in orig if x[0] == "const" and x[1] == "int" and x[2] == "1"]
-            if not (adds and all(a[1].startswith("Add") for a in adds) and ones):
+            if not rules.is_increment_by_one(b, s):
                 good = False
-                ck.fail(o, b.name, "hunks_written update is not += 1", "assigned from %s" % flow.origin_summary(orig))
+                ck.fail(o, b.name, "hunks_written update is not += 1", "hunks_written is not incremented by exactly one")
             else:
                 order_after_success(ck, ck.ob("C13.3c.order", "the increment follows the successful write"), b,
                                     events_of(lib, b, "transport::Transport::write"), [bb], "Transport::write", "hunks_written += 1")
